@@ -22,6 +22,8 @@ type monC09 struct {
 	base
 	inflight map[string]*c09msg // handler task id -> message being handled
 	pending  map[int]*c09msg    // delivery idx -> classified message (deliver seen, handling not yet)
+	reqIdx   map[int]string     // delivery idx of every request -> its swap id
+	reqTask  map[string]string  // handler task -> swap id of the request it handles
 }
 
 func (m *monC09) Name() string { return "C09" }
@@ -77,6 +79,12 @@ func (m *monC09) OnObs(w *World, o *Obs) {
 		if !isReal(w, o.Node) || o.Msg.Type < MsgSwapInRequest || o.Msg.Type > MsgCoopClose || o.Msg.Type%2 == 0 {
 			return
 		}
+		if o.Msg.Type == MsgSwapInRequest || o.Msg.Type == MsgSwapOutRequest {
+			if m.reqIdx == nil {
+				m.reqIdx, m.reqTask = map[int]string{}, map[string]string{}
+			}
+			m.reqIdx[o.Msg.Idx] = o.Msg.SwapID
+		}
 		class := m.classify(w, o.Node, o.Msg)
 		if class == "" {
 			return
@@ -87,6 +95,10 @@ func (m *monC09) OnObs(w *World, o *Obs) {
 		}
 		m.pending[o.Msg.Idx] = &c09msg{idx: o.Msg.Idx, from: o.Msg.From, typ: o.Msg.Type, id: o.Msg.SwapID, class: class, before: w.Nodes[o.Node].AllRaw(), payload: o.Msg.Payload}
 	case "handling":
+		if id, ok := m.reqIdx[int(o.Num)]; ok {
+			delete(m.reqIdx, int(o.Num))
+			m.reqTask[o.Task] = id
+		}
 		if c := m.pending[int(o.Num)]; c != nil {
 			delete(m.pending, int(o.Num))
 			// refresh the snapshot: other handlers may have run since delivery
@@ -95,6 +107,21 @@ func (m *monC09) OnObs(w *World, o *Obs) {
 		}
 	case "handled":
 		delete(m.inflight, o.Task)
+		if id, ok := m.reqTask[o.Task]; ok {
+			delete(m.reqTask, o.Task)
+			// whatever became of this request (admitted, refused as a duplicate, refused for any
+			// other reason): a swap of that id that this node holds a live record of must still be
+			// registered with the service - a refused copy must not take the live swap down
+			n := w.Nodes[o.Node]
+			if n.Up && n.Recovered && n.Svc != nil && n.inc == o.Inc {
+				if rec := DecodeRec(n.RawRecord(id)); rec != nil && !rec.Terminal() {
+					w.Probe("C09:registration-checked")
+					if _, err := n.Svc.GetActiveSwap(id); err != nil {
+						w.Violate("C09", "live-swap-unregistered-after-request:"+shortState(rec.Current), "node %d: after handling a request with id %.8s the swap of that id (record state %s) is no longer registered with the swap service: %v", o.Node, id, rec.Current, err)
+					}
+				}
+			}
+		}
 	case "store.write":
 		c := m.inflight[o.Task]
 		if c == nil || o.Store.Raw == nil {
